@@ -401,8 +401,10 @@ def run_threads(spec, acc):
             k = r.choice(['a', 'b', 'c', 'extra'])
             ln = sys._getframe().f_lineno + 1     # pylint: disable=protected-access
             setattr(cfg, k, j)
-            loc = cfg.__argument_history__[k][-1].location
-            if loc is None or loc.line_number != ln or not loc.filename.endswith('vf/checks/c16.py'):
+            ents = cfg.__argument_history__.get(k) or []
+            loc = ents[-1].location if ents and ents[-1].new_value is j else None
+            if ents and ents[-1].new_value is j and (
+                loc is None or loc.line_number != ln or not loc.filename.endswith('vf/checks/c16.py')):
               wrong_loc[0] += 1
               wrong_loc.append(f'{getattr(loc, "filename", None)}:{getattr(loc, "line_number", None)} (expected line {ln})')
             after = sum(len(v) for v in cfg.__argument_history__.values())
@@ -422,6 +424,9 @@ def run_threads(spec, acc):
         t.join()
       acc.obs('thread_runs')
       all_ids = []
+      if any(r_ is None for r_ in results):
+        acc.violation('thread:body-crashed', 'a thread program raised', {'threads': nthreads})
+        continue
       for ti, (per_key, susp, enabled, lost_n, wrong) in enumerate(results):
         acc.obs('thread_edit_locations_checked', 100)
         if wrong[0]:
